@@ -42,7 +42,7 @@ pub fn inputs(seed: u64, tier: Tier) -> Vec<Input> {
         }
     }
     // single-byte substitutions at every position of some streams
-    let subst_items: Vec<&corpus::Item> = items.iter().filter(|i| i.name == "mix+size" || i.name == "mix+marker" || (tier == Tier::Thorough && (i.name == "lits12+marker" || i.name == "mix+size+marker"))).collect();
+    let subst_items: Vec<&corpus::Item> = items.iter().filter(|i| i.name == "mix+size" || i.name == "mix+marker" || (tier == Tier::Thorough && (i.name.starts_with("lits12") || i.name.starts_with("mix") || i.name.starts_with("match-ended") || i.name.starts_with("one-literal") || i.name.starts_with("empty") || i.name.starts_with("long-symbols-300")))).collect();
     for it in subst_items {
         let b = it.build(corpus::OptKind::Header).unwrap();
         for pos in 0..b.bytes.len() {
